@@ -4,9 +4,11 @@ package main
 
 import (
 	"errors"
+	"fmt"
 	"os"
 	"strconv"
 	"strings"
+	"time"
 
 	"verifharness/runner"
 
@@ -43,6 +45,53 @@ func c09RaceSeen() string {
 	return "norace"
 }
 
+// Circuit breaker for non-termination.  A call that does not return costs the whole per-case timeout (the runner
+// prints `timeout` and exits; the check restarts the binary).  If CircularLigate regresses into non-termination, hundreds
+// of generated pools hang and the check would run for hours.  Shortly before the runner's deadline a watchdog records the
+// hang in a file shared by all harness processes of this check run (named after the parent process); once three hangs are
+// on record the remaining requests are answered `ok not-run` without calling the code (judged `skip`, not `pass`): the
+// three timeouts already are failing inputs.
+const c09MaxHangs = 3
+
+func c09HangFile() string {
+	return fmt.Sprintf("%s/verif-c09-hangs-%d", os.TempDir(), os.Getppid())
+}
+
+func c09Hangs() int {
+	st, err := os.Stat(c09HangFile())
+	if err != nil || time.Since(st.ModTime()) > 6*time.Hour {
+		return 0
+	}
+	return int(st.Size())
+}
+
+// c09Guard runs f under the watchdog; it returns false when the breaker is open (f was not run).
+func c09Guard(f func()) bool {
+	if c09Hangs() >= c09MaxHangs {
+		return false
+	}
+	timeout := 20 * time.Second
+	if v := os.Getenv("VERIF_CASE_TIMEOUT_MS"); v != "" {
+		if ms, err := strconv.Atoi(v); err == nil {
+			timeout = time.Duration(ms) * time.Millisecond
+		}
+	}
+	done := make(chan struct{})
+	go func() {
+		select {
+		case <-done:
+		case <-time.After(timeout - timeout/10):
+			if fh, err := os.OpenFile(c09HangFile(), os.O_APPEND|os.O_CREATE|os.O_WRONLY, 0o644); err == nil {
+				fh.WriteString("x")
+				fh.Close()
+			}
+		}
+	}()
+	f()
+	close(done)
+	return true
+}
+
 func c09ParsePool(s string) ([]clone.Fragment, error) {
 	var pool []clone.Fragment
 	if s == "" {
@@ -73,12 +122,17 @@ func c09ParseParts(s string) ([]clone.Part, error) {
 	return parts, nil
 }
 
+// c09Run renders the returned parts: count, then sequence and Circular flag of every part.
 func c09Run(parts []clone.Part) string {
-	seqs := make([]string, len(parts))
+	items := make([]string, len(parts))
 	for i, p := range parts {
-		seqs[i] = p.Sequence
+		flag := "L"
+		if p.Circular {
+			flag = "C"
+		}
+		items[i] = p.Sequence + ":" + flag
 	}
-	return strconv.Itoa(len(parts)) + ":" + strings.Join(seqs, ",")
+	return strconv.Itoa(len(parts)) + ":" + strings.Join(items, ",")
 }
 
 func init() {
@@ -89,7 +143,11 @@ func init() {
 			if err != nil {
 				return nil, err
 			}
-			out = append(out, c09Run(clone.CircularLigate(pool)))
+			var constructs []clone.Part
+			if !c09Guard(func() { constructs = clone.CircularLigate(pool) }) {
+				return []string{"not-run"}, nil
+			}
+			out = append(out, c09Run(constructs))
 		}
 		out[0] = c09RaceSeen()
 		return out, nil
@@ -102,7 +160,10 @@ func init() {
 			if err != nil {
 				return nil, err
 			}
-			constructs, err := clone.GoldenGate(parts, enzyme)
+			var constructs []clone.Part
+			if !c09Guard(func() { constructs, err = clone.GoldenGate(parts, enzyme) }) {
+				return []string{"not-run"}, nil
+			}
 			if err != nil {
 				return nil, err
 			}
